@@ -939,6 +939,12 @@ def freq_vectors(tier, rng):
         for p_, f in zip(pos, fib):
             v[p_] = f
         out.append(("fib%d" % k, v))
+    # powers of two: codewords of 26..31 bits (a 32-bit encoder shifts them across four output bytes)
+    for k in (27, 29):
+        v = [1] * 256
+        for j, p_ in enumerate(r.sample(range(256), k)):
+            v[p_] = 1 << (j + 1)
+        out.append(("pow2_%d" % k, v))
     v = [1] * 256
     v[r.below(256)] = 10 ** 6
     out.append(("dominant", v))
@@ -979,7 +985,7 @@ def codes_phase2(case, impl_lines):
     for l in impl_lines:
         t = l.split()
         if len(t) >= 4 and t[1] == "CT":
-            ops.append(["ctchk", t[2], t[3]])
+            ops.append(["ctchk", t[2], t[3]] + ([t[4]] if len(t) > 4 else []))
         elif not l.startswith("FAULT"):
             ops.append(["ctchk", "?", "-"])
     while len(ops) < len(case[5]):
